@@ -322,10 +322,12 @@ DOM0, VAL0 = z3.Const('_g_dom0', IDom), z3.Const('_g_val0', IVal)
 
 def frag_store_loop(eng, fdef):
     import ast
-    last = fdef.body[-1]
-    if not (isinstance(last, ast.If) and ast.unparse(last.test) == 'self.online'):
-        raise Unsupported('stale contract: plc._store does not end with `if self.online:`')
-    return [last]
+    body = [x for x in fdef.body if not (isinstance(x, ast.Expr) and isinstance(x.value, ast.Constant))]
+    norm = [k for k, x in enumerate(body) if isinstance(x, ast.If) and 'hasattr' in ast.unparse(x.test) and '__getitem__' in ast.unparse(x.test)]
+    last = body[-1]
+    if len(norm) != 1 or not (isinstance(last, ast.If) and ast.unparse(last.test) == 'self.online'):
+        raise Unsupported('stale contract: plc._store is not `normalise value; ...; if self.online: store`')
+    return body[norm[0] + 1:]          # everything after the scalar -> list normalisation of `value`
 
 
 def data_field(eng, name, st):
@@ -383,7 +385,7 @@ def store_spec():
                 ensures=[('a received block creates / keeps exactly these registers: with create=False no register the table does not already hold', POST[0]),
                          ('and changes only registers inside [address, address + len(value)), each to its own value of the block', POST[1])],
                 raises={}, modifies=['self._data'],
-                note='FRAGMENT (T9): the `if self.online:` statement of plc._store (the value normalisation and the log line before it are not part of it); '
+                note='FRAGMENT (T9): plc._store after the scalar -> list normalisation of `value` (the log line is dropped, D1); '
                      'the register table is a map over integer addresses (domain and value arrays)')
 
 
